@@ -1837,7 +1837,13 @@ class Isometry(projective.Transformation, HyperbolicObject):
         # find fixpoints in projective space, and their eigenvalues and minkowski norms
 
         eigvals, eigvecs = utils.eig(self.proj_data.swapaxes(-1, -2))
-        norms = utils.normsq(eigvecs.swapaxes(-1, -2),  self.minkowski)
+
+        # (Hermitian norms: a complex eigenvector is isotropic for the
+        # bilinear form, but it is not a point of H^n or its boundary)
+        norms = np.real(utils.apply_bilinear(
+            np.conjugate(eigvecs.swapaxes(-1, -2)),
+            eigvecs.swapaxes(-1, -2), self.minkowski
+        ))
 
         # 1 for eigenvectors which actually lie in H^n, 0 for outside vectors
         in_plane = np.where(norms > ERROR_THRESHOLD, 0, 1)
@@ -1851,7 +1857,8 @@ class Isometry(projective.Transformation, HyperbolicObject):
             sort_indices = np.lexsort(sort_order, axis=-1)
             sort_indices = np.expand_dims(sort_indices, axis=-2)
         else:
-            sort_indices = np.argsort(in_plane, axis=-1)
+            sort_indices = np.expand_dims(np.argsort(in_plane, axis=-1),
+                                          axis=-2)
 
         # we want a descending sort to put maximum modulus eigenvalues first
         sort_indices = np.flip(sort_indices, axis=-1)
